@@ -15,7 +15,7 @@ from ..world import ConnWorld, mk
 MAJORS = (0, 1, 2, 3, 4, 2**32 - 1)
 MINORS = (0, 9, 10, 11)
 EXPECTED = "mydev"
-ORDERS = ("two-chunks", "one-chunk", "bytewise", "connect-first", "verdict-twice", "hello-twice")
+ORDERS = ("two-chunks", "one-chunk", "bytewise", "connect-first", "verdict-twice", "hello-twice", "one-chunk+DR", "then-DR")
 NOISE_NAMES = ("absent", "equal", "different", "empty")
 
 
@@ -57,6 +57,11 @@ def one_case(c: dict[str, Any]) -> dict[str, Any]:
                 chunks = [hello] + ([cr] if login else [])
             elif order == "one-chunk":
                 chunks = [hello + (cr if login else b"")]
+            elif order == "one-chunk+DR":
+                # the device's (possibly rejecting) answer and its disconnect request share one chunk
+                chunks = [hello + (cr if login else b"") + w.dframe(mk("DisconnectRequest"))]
+            elif order == "then-DR":
+                chunks = [hello + (cr if login else b""), w.dframe(mk("DisconnectRequest"))]
             elif order == "bytewise":
                 data = hello + (cr if login else b"")
                 chunks = [data[i : i + 1] for i in range(len(data))]
@@ -86,7 +91,7 @@ def one_case(c: dict[str, Any]) -> dict[str, Any]:
         # deviating devices the statement does not speak about: a duplicate hello after an acceptable one, or an 'invalid'
         # verdict after an 'ok' one - the client may accept or fail with a connection error, but never on the strength of
         # the *later* message when the first one must be rejected
-        lenient = accept and ((c["order"] == "hello-twice") or (c["order"] == "verdict-twice" and login))
+        lenient = accept and ((c["order"] == "hello-twice") or (c["order"] == "verdict-twice" and login) or c["order"] == "one-chunk+DR")
         viol = None
         key = ",".join(f"{k}={v}" for k, v in c.items())
         conn = w.client._connection
@@ -97,6 +102,9 @@ def one_case(c: dict[str, Any]) -> dict[str, Any]:
         elif accept:
             if out != "ok":
                 viol = f"connect should succeed but ended {out}: {res[1] if res else None}"
+            elif c["order"] == "then-DR":
+                if stops != [True]:
+                    viol = f"session established, then the device asked to disconnect: stop callback calls {stops}, expected [True]"
             elif conn is None or conn.connection_state.name != "CONNECTED":
                 viol = "connect returned but the connection is not in the connected state"
             elif w.client.api_version != APIVersion(c["major"], c["minor"]):
